@@ -62,6 +62,59 @@ func (c *fakeContainer) Harvest(quantity uint, startingAt uint) ([]pub.Tangible,
 	return c.items[startingAt:end], c, end
 }
 
+/* 2020-01-01T00:00:00Z: the instant the splice ops count seconds from */
+const spliceBase = int64(1577836800)
+
+/*
+a synthetic source that is itself paged, the way a pub.Collection is: every page is a container of
+its own, a request that runs past a page continues on the next one at offset 0, and the
+continuation names the page the delivery stopped in.  Exact delivery, like every real container.
+*/
+type pagedContainer struct {
+	items []pub.Tangible
+	next  *pagedContainer
+	delay time.Duration
+}
+
+func newPagedContainer(items []pub.Tangible, pageSize int, delay time.Duration) *pagedContainer {
+	head := &pagedContainer{delay: delay}
+	cur := head
+	for len(items) > pageSize {
+		cur.items = items[:pageSize]
+		cur.next = &pagedContainer{delay: delay}
+		cur = cur.next
+		items = items[pageSize:]
+		if pageSize > 1 {
+			pageSize--
+		} else {
+			pageSize = 3
+		}
+	}
+	cur.items = items
+	return head
+}
+
+func (c *pagedContainer) Harvest(quantity uint, startingAt uint) ([]pub.Tangible, pub.Container, uint) {
+	if c.delay > 0 {
+		time.Sleep(c.delay)
+	}
+	out := []pub.Tangible{}
+	for c != nil {
+		n := uint(len(c.items))
+		if startingAt < n {
+			end := startingAt + quantity
+			if end < n {
+				return append(out, c.items[startingAt:end]...), c, end
+			}
+			out = append(out, c.items[startingAt:]...)
+			quantity -= n - startingAt
+		}
+		startingAt = 0
+		c = c.next
+	}
+	return out, nil, 0
+}
+
 func init() {
 	execs["paging"] = func(op Op) any {
 		var doc map[string]any
@@ -73,54 +126,104 @@ func init() {
 		if err != nil {
 			return map[string]any{"notcollection": true}
 		}
-		var cont pub.Container = c
-		off := uint(I(op, "start"))
+		/* a script of steps [kind, amount, k?]: "h" asks the latest continuation and advances,
+		   "again" asks it without advancing, "old" asks the k-th continuation handed out so far
+		   (0 = the collection at the start offset) after newer ones exist.  A plain list of
+		   amounts ("requests") is a script of "h" steps. */
+		script := L(op, "script")
+		if script == nil {
+			for _, q := range L(op, "requests") {
+				script = append(script, []any{"h", q})
+			}
+		}
+		type position struct {
+			c   pub.Container
+			off uint
+		}
+		conts := []position{{c, uint(I(op, "start"))}}
 		out := []any{}
-		for _, q := range L(op, "requests") {
-			items, next, nextOff := cont.Harvest(uint(I(Op{"v": q}, "v")), off)
+		for _, raw := range script {
+			step := raw.([]any)
+			from := conts[len(conts)-1]
+			if step[0].(string) == "old" {
+				from = conts[I(Op{"v": step[2]}, "v")%len(conts)]
+			}
+			items, next, nextOff := from.c.Harvest(uint(I(Op{"v": step[1]}, "v")), from.off)
 			tags := make([]any, len(items))
 			for i, it := range items {
 				tags[i] = tagOf(it)
 			}
 			out = append(out, []any{tags, next == nil, int(nextOff)})
-			if next == nil {
-				break
+			if step[0].(string) == "h" {
+				if next == nil {
+					break
+				}
+				conts = append(conts, position{next, nextOff})
 			}
-			cont, off = next, nextOff
 		}
 		return out
 	}
 	execs["splice"] = func(op Op) any {
-		base := time.Date(2020, 1, 1, 0, 0, 0, 0, time.UTC)
+		/* an item is [label, seconds, nanoseconds?, zone minutes?] relative to 2020-01-01T00:00:00Z,
+		   or [label, null] for the zero time; the same label twice is the same item (one
+		   pointer) present in two places */
+		shared := map[string]*fakeItem{}
 		pages := []pub.Container{}
+		paged := I(op, "paged") == 1
 		for _, src := range L(op, "sources") {
 			items := []pub.Tangible{}
 			for _, it := range src.([]any) {
 				p := it.([]any)
+				lbl := p[0].(string)
+				if strings.HasPrefix(lbl, "dup") {
+					if f, ok := shared[lbl]; ok {
+						items = append(items, f)
+						continue
+					}
+				}
 				ts := time.Time{}
 				if p[1] != nil {
-					ts = base.Add(time.Duration(I(Op{"v": p[1]}, "v")) * time.Second)
+					nsec := 0
+					if len(p) > 2 {
+						nsec = I(Op{"v": p[2]}, "v")
+					}
+					ts = time.Unix(spliceBase+int64(I(Op{"v": p[1]}, "v")), int64(nsec)).UTC()
+					if len(p) > 3 {
+						ts = ts.In(time.FixedZone("z", 60*I(Op{"v": p[3]}, "v")))
+					}
 				}
-				items = append(items, &fakeItem{label: p[0].(string), ts: ts})
+				f := &fakeItem{label: lbl, ts: ts}
+				shared[lbl] = f
+				items = append(items, f)
 			}
+			delay := time.Duration(I(op, "delay_us")) * time.Microsecond
 			if len(items) == 0 && I(op, "nilempty") == 1 {
 				pages = append(pages, nil)
+			} else if paged {
+				pages = append(pages, newPagedContainer(items, 1+len(pages)%3, delay))
 			} else {
-				pages = append(pages, &fakeContainer{items: items, delay: time.Duration(I(op, "delay_us")) * time.Microsecond})
+				pages = append(pages, &fakeContainer{items: items, delay: delay})
 			}
 		}
 		s := splicer.VerifNew(pages)
 		var cont pub.Container = s
+		/* every continuation the feed has handed out so far (0 = the feed as built): an "old"
+		   step asks one of them again after newer ones exist */
+		conts := []pub.Container{cont}
 		out := []any{}
 		for _, raw := range L(op, "script") {
 			step := raw.([]any)
 			q := uint(I(Op{"v": step[1]}, "v"))
 			st := uint(I(Op{"v": step[2]}, "v"))
+			from := cont
+			if step[0].(string) == "old" {
+				from = conts[I(Op{"v": step[3]}, "v")%len(conts)]
+			}
 			var items []pub.Tangible
 			var next pub.Container
 			var tags []any
 			if step[0].(string) != "par" {
-				items, next, _ = cont.Harvest(q, st)
+				items, next, _ = from.Harvest(q, st)
 				tags = make([]any, len(items))
 				for i, it := range items {
 					tags[i] = tagOf(it)
@@ -161,6 +264,7 @@ func init() {
 					break
 				}
 				cont = next
+				conts = append(conts, cont)
 			}
 		}
 		return out
@@ -169,25 +273,36 @@ func init() {
 	groups["C11"] = group{gen: genC11}
 }
 
-/* a page chain as nested embedded objects; returns JSON text */
-func genChain(r *rand.Rand, tag *int) string {
+/*
+a page chain as nested embedded objects; returns JSON text and the number of items on the keys
+that count.  `layout`, when given, fixes the number of items of the root (first entry) and of every
+page: layouts with runs of empty pages of an exact length.
+*/
+func genChain(r *rand.Rand, tag *int, layout []int) (string, int) {
 	ordered := r.Intn(2) == 0
-	kindRoot, kindPage, itemsKey := "Collection", "CollectionPage", "items"
+	kindRoot, kindPage, itemsKey, otherKey := "Collection", "CollectionPage", "items", "orderedItems"
 	if ordered {
-		kindRoot, kindPage, itemsKey = "OrderedCollection", "OrderedCollectionPage", "orderedItems"
+		kindRoot, kindPage, itemsKey, otherKey = "OrderedCollection", "OrderedCollectionPage", "orderedItems", "items"
 	}
 	npages := r.Intn(9)
 	if r.Intn(6) == 0 {
 		npages = 8 + r.Intn(10)
 	}
+	if layout != nil {
+		npages = len(layout) - 1
+	}
 	emptyBias := r.Intn(4)
-	genItems := func() string {
+	count := 0
+	genItems := func(fixed int) string {
 		n := 0
 		if r.Intn(4) >= emptyBias || r.Intn(3) == 0 {
 			n = r.Intn(5)
 		}
 		if r.Intn(emptyBias+2) > 1 {
 			n = 0
+		}
+		if fixed >= 0 {
+			n = fixed
 		}
 		parts := []string{}
 		for i := 0; i < n; i++ {
@@ -198,19 +313,35 @@ func genChain(r *rand.Rand, tag *int) string {
 				parts = append(parts, fmt.Sprintf("\"t%d\"", *tag))
 			}
 		}
+		count += n
+		/* the key of the other flavour, which this kind of collection does not read */
+		decoy := ""
+		if r.Intn(6) == 0 {
+			*tag++
+			decoy = fmt.Sprintf(",%q:%s", otherKey, pick(r, []string{fmt.Sprintf("[\"x%d\",\"y%d\"]", *tag, *tag), "[]", fmt.Sprintf("\"x%d\"", *tag), "{\"a\":1}"}))
+		}
 		switch weighted(r, 12, 2, 1, 1) {
 		case 1:
 			if n == 0 {
-				return "" // key absent
+				return strings.TrimPrefix(decoy, ",") // key absent
 			}
 		case 2:
 			if n == 1 {
-				return fmt.Sprintf("%q:%s", itemsKey, parts[0]) // single value promoted to a list
+				return fmt.Sprintf("%q:%s", itemsKey, parts[0]) + decoy // single value promoted to a list
 			}
 		case 3:
-			return fmt.Sprintf("%q:null", itemsKey)
+			if fixed < 0 {
+				count -= n
+				return fmt.Sprintf("%q:null", itemsKey) + decoy
+			}
 		}
-		return fmt.Sprintf("%q:[%s]", itemsKey, strings.Join(parts, ","))
+		return fmt.Sprintf("%q:[%s]", itemsKey, strings.Join(parts, ",")) + decoy
+	}
+	fixedAt := func(i int) int {
+		if layout == nil {
+			return -1
+		}
+		return layout[i]
 	}
 	/* build from the last page backwards */
 	next := ""
@@ -226,7 +357,7 @@ func genChain(r *rand.Rand, tag *int) string {
 	}
 	for i := npages - 1; i >= 0; i-- {
 		fields := []string{fmt.Sprintf("\"type\":%q", kindPage)}
-		if it := genItems(); it != "" {
+		if it := genItems(fixedAt(i + 1)); it != "" {
 			fields = append(fields, it)
 		}
 		if next != "" {
@@ -241,14 +372,18 @@ func genChain(r *rand.Rand, tag *int) string {
 				fields = append(fields, "\"partOf\":\"https://plaintext.example/root\"", "\"prev\":{\"type\":\"CollectionPage\"}")
 			}
 		}
-		if r.Intn(30) == 0 {
+		if r.Intn(8) == 0 {
+			/* what a page says about the size of the collection is not what it holds */
+			fields = append(fields, "\"totalItems\":"+pick(r, []string{"0", "1", "1000000", "-1", "\"7\"", "1.5", "null"}))
+		}
+		if r.Intn(30) == 0 && layout == nil {
 			fields[0] = fmt.Sprintf("\"type\":%q", pick(r, []string{"Collection", "OrderedCollection", "OrderedCollectionPage", "CollectionPage"}))
 		}
 		next = "{" + strings.Join(fields, ",") + "}"
 	}
-	fields := []string{fmt.Sprintf("\"type\":%q", kindRoot), "\"totalItems\":3"}
-	if r.Intn(3) == 0 {
-		if it := genItems(); it != "" {
+	fields := []string{fmt.Sprintf("\"type\":%q", kindRoot), "\"totalItems\":" + pick(r, []string{"3", "3", "0", "1", "1000000", "-1", "\"7\"", "1.5", "null", "18446744073709551616"})}
+	if r.Intn(3) == 0 || layout != nil {
+		if it := genItems(fixedAt(0)); it != "" {
 			fields = append(fields, it)
 		}
 	}
@@ -259,15 +394,35 @@ func genChain(r *rand.Rand, tag *int) string {
 		*tag++
 		fields = append(fields, fmt.Sprintf("\"next\":{\"type\":%q,%q:[\"n%d\"]}", kindPage, itemsKey, *tag))
 	}
-	return "{" + strings.Join(fields, ",") + "}"
+	return "{" + strings.Join(fields, ",") + "}", count
+}
+
+/* page sizes with runs of exactly two, three or four empty pages between full ones, the root counting */
+func genEmptyRunLayout(r *rand.Rand) []int {
+	layout := []int{pick(r, []int{0, 0, 2})}
+	for len(layout) < 4+r.Intn(12) {
+		run := pick(r, []int{2, 3, 3, 4, 3, 1})
+		if len(layout) == 1 && layout[0] == 0 {
+			run-- // the root is the first empty page of the run
+		}
+		for k := 0; k < run; k++ {
+			layout = append(layout, 0)
+		}
+		layout = append(layout, 1+r.Intn(3))
+	}
+	return layout
 }
 
 func genC10(r *rand.Rand, n int, emit func(Op)) {
 	for i := 0; i < n; i++ {
 		tag := 0
-		root := genChain(r, &tag)
+		var layout []int
+		if r.Intn(6) == 0 {
+			layout = genEmptyRunLayout(r)
+		}
+		root, total := genChain(r, &tag, layout)
 		reqs := []any{}
-		switch weighted(r, 3, 3, 2) {
+		switch weighted(r, 3, 3, 2, 2) {
 		case 0:
 			reqs = append(reqs, 1+r.Intn(40))
 		case 1:
@@ -279,46 +434,116 @@ func genC10(r *rand.Rand, n int, emit func(Op)) {
 			for j := 0; j < 12; j++ {
 				reqs = append(reqs, r.Intn(7))
 			}
+		case 3:
+			/* amounts around the size of the whole chain, and the smallest ones */
+			for j := 0; j < 1+r.Intn(4); j++ {
+				reqs = append(reqs, pick(r, []int{0, 1, total, total + 1, total - 1, total / 2, total - total/2, 2 * total}))
+			}
 		}
 		start := 0
 		if r.Intn(5) == 0 {
 			start = r.Intn(6)
 		}
-		emit(Op{"op": "paging", "root": root, "requests": reqs, "start": start})
+		op := Op{"op": "paging", "root": root, "start": start}
+		if r.Intn(3) == 0 {
+			/* the same continuation asked again, and older continuations asked after newer ones */
+			script := []any{}
+			hs := 0
+			for _, q := range reqs {
+				if v, ok := q.(int); ok && v < 0 {
+					q = 0
+				}
+				switch weighted(r, 6, 2, 2) {
+				case 1:
+					script = append(script, []any{"again", q})
+				case 2:
+					script = append(script, []any{"old", pick(r, []any{q, 1, 2, 5}), r.Intn(hs + 1)})
+				}
+				script = append(script, []any{"h", q})
+				hs++
+			}
+			op["script"] = script
+		} else {
+			for k, q := range reqs {
+				if v, ok := q.(int); ok && v < 0 {
+					reqs[k] = 0
+				}
+			}
+			op["requests"] = reqs
+		}
+		emit(op)
 	}
 }
+
+/* seconds of the zero time.Time (year 1) relative to spliceBase */
+const spliceZero = -62135596800 - 1577836800
 
 func genC11(r *rand.Rand, n int, emit func(Op)) {
 	for i := 0; i < n; i++ {
 		ns := r.Intn(5)
 		sources := []any{}
 		label := 0
+		total := 0
+		/* which timestamps this feed draws from */
+		class := weighted(r, 6, 2, 2, 2, 1)
+		long := -1
+		if ns > 0 && r.Intn(8) == 0 {
+			long = r.Intn(ns) // one source much longer than the others
+		}
+		dups := []any{}
 		for s := 0; s < ns; s++ {
 			k := r.Intn(8)
 			if r.Intn(4) == 0 {
 				k = 0
+			}
+			if s == long {
+				k = 15 + r.Intn(30)
 			}
 			items := []any{}
 			t := 100 + r.Intn(50)
 			sorted := r.Intn(4) != 0
 			for j := 0; j < k; j++ {
 				label++
-				var ts any
 				if sorted {
 					t -= r.Intn(6) // newest first, with ties
-					ts = t
 				} else {
-					ts = r.Intn(150)
+					t = r.Intn(150)
+				}
+				var item []any
+				switch class {
+				case 0:
+					item = []any{fmt.Sprintf("s%d-%d", s, label), t}
+				case 1:
+					/* differences below one second, and equal instants */
+					item = []any{fmt.Sprintf("s%d-%d", s, label), 100 + t/50, pick(r, []int{0, 1, 999999999, 500000000, 1000, 999999000}) * (t % 2)}
+				case 2:
+					/* the same instants written in different zones (equal instants are ties, whatever
+					   the wall clock says) */
+					item = []any{fmt.Sprintf("s%d-%d", s, label), 3600 * (t / 10), 0, pick(r, []int{0, 60, -60, 330, -720, 840, 1})}
+				case 3:
+					/* far past and far future, around and before the zero time */
+					item = []any{fmt.Sprintf("s%d-%d", s, label), pick(r, []int{spliceZero, spliceZero - 1, spliceZero + 1, spliceZero - 86400*400, -1577836800, -1577836801, 0, 253402300799 - 1577836800, 4102444800, t}), pick(r, []int{0, 0, 1})}
+				default:
+					/* every source carries the same few instants */
+					item = []any{fmt.Sprintf("s%d-%d", s, label), 100 - j/2}
 				}
 				if r.Intn(10) == 0 {
-					ts = nil // missing timestamp (zero time)
+					item = []any{item[0], nil} // missing timestamp (zero time)
 				}
-				items = append(items, []any{fmt.Sprintf("s%d-%d", s, label), ts})
+				if len(dups) > 0 && r.Intn(8) == 0 {
+					item = pick(r, dups).([]any) // an item another source lists too
+				} else if r.Intn(10) == 0 {
+					item[0] = fmt.Sprintf("dup%d", label)
+					dups = append(dups, item)
+				}
+				items = append(items, item)
 			}
+			total += len(items)
 			sources = append(sources, items)
 		}
 		script := []any{}
 		steps := 1 + r.Intn(6)
+		hs := 0
 		for j := 0; j < steps; j++ {
 			kind := "h"
 			if r.Intn(4) == 0 {
@@ -331,8 +556,31 @@ func genC11(r *rand.Rand, n int, emit func(Op)) {
 			if r.Intn(5) == 0 {
 				st = r.Intn(4)
 			}
-			script = append(script, []any{kind, r.Intn(7), st})
+			q := r.Intn(7)
+			switch r.Intn(12) {
+			case 0:
+				q = total
+			case 1:
+				q = total + 1
+			case 2:
+				if total > 0 {
+					q = total - 1
+				}
+			case 3:
+				q = r.Intn(total + 2)
+			case 4:
+				q = 1
+			}
+			if hs > 0 && r.Intn(6) == 0 {
+				/* an older continuation asked again after newer ones exist */
+				script = append(script, []any{"old", q, st, r.Intn(hs + 1)})
+				continue
+			}
+			if kind == "h" {
+				hs++
+			}
+			script = append(script, []any{kind, q, st})
 		}
-		emit(Op{"op": "splice", "sources": sources, "script": script, "nilempty": r.Intn(2), "delay_us": pick(r, []int{0, 0, 300, 1000})})
+		emit(Op{"op": "splice", "sources": sources, "script": script, "nilempty": r.Intn(2), "paged": r.Intn(2), "delay_us": pick(r, []int{0, 0, 300, 1000})})
 	}
 }
